@@ -201,7 +201,7 @@ def default_kind(d, f):
     return None
 
 
-def struct_template(d, gen_id):
+def struct_template(d, gen_id, mode="full"):
     n = d["name"]
     F = d["fields"]
     N = len(F)
@@ -268,7 +268,7 @@ def struct_template(d, gen_id):
     w(f"pub struct St{n}<{tps}> {{ " + " ".join(slots) + " pub flat: Seq<NestedMeta>, pub errs: Seq<Error> }")
     gen_bounds = ", ".join(f"T{i}" + (": " + " + ".join(bounds(i)) if bounds(i) else "") for i in range(N))
     init = ", ".join((f"s{i}: Seq::empty()" if f["multiple"] else f"s{i}: (false, None)") for i, f in enumerate(F))
-    w(f"pub open spec fn init_{n}<{gen_bounds}>() -> St{n}<{tps}> {{ St{n} {{ {init}, flat: Seq::empty(), errs: Seq::empty() }} }}")
+    w(f"pub open spec fn init_{n}<{gen_bounds}>() -> St{n}<{tps}> {{ St{n} {{ {init + ', ' if init else ''}flat: Seq::empty(), errs: Seq::empty() }} }}")
 
     # per-field conversion: with/type converter, then map / and_then  (C01)
     for i in addressable:
@@ -319,7 +319,7 @@ def struct_template(d, gen_id):
     w("}")
 
     # finish: flatten hand-off, presence checks in declaration order, verdict (C01 defaults, C02 missing fields)
-    w(f"pub open spec fn fin_{n}<{gen_bounds}>(st0: St{n}<{tps}>) -> Result<{n}<{tps}>> {{")
+    w(f"pub open spec fn fin0_{n}<{gen_bounds}>(st0: St{n}<{tps}>) -> Result<{n}<{tps}>> {{")
     cur = "st0"
     k = 0
     if flat is not None:
@@ -359,42 +359,57 @@ def struct_template(d, gen_id):
             else:
                 inits.append(f"{f['ident']}: {cur}.s{i}.1->0")
     val = f"{n} {{ " + ", ".join(inits) + " }"
-    if d["cpost"] == "map":
-        w(f"        Ok(map_{n}_spec({val}))")
-    elif d["cpost"] == "and_then":
-        w(f"        fix_{n}_spec({val})")
-    else:
-        w(f"        Ok({val})")
+    w(f"        Ok({val})")
     w("    }")
     w("}")
+    cp = {"map": f"Ok(map_{n}_spec(v))", "and_then": f"fix_{n}_spec(v)", None: "Ok(v)"}[d["cpost"]]
+    w(f"pub open spec fn fin_{n}<{gen_bounds}>(st0: St{n}<{tps}>) -> Result<{n}<{tps}>> {{ match fin0_{n}::<{tps}>(st0) {{ Ok(v) => {cp}, Err(e) => Err(e) }} }}")
 
     # invariant linking locals to the oracle state of the consumed prefix
     eqs = []
-    safe = []
+    safe = [f"({f['ident']}.0 && {f['ident']}.1 is None ==> __errors.errs().len() > 0)" for f in F if not f["multiple"]]
     for i, f in enumerate(F):
-        if f["multiple"]:
+        if mode == "err":
+            # C02 view: which value a field holds is C01's business; only presence / count can influence errors
+            if f["multiple"]:
+                eqs.append(f"{f['ident']}@.len() == st.s{i}.len()")
+            else:
+                eqs.append(f"{f['ident']}.0 == st.s{i}.0 && ({f['ident']}.1 is Some) == (st.s{i}.1 is Some)")
+        elif f["multiple"]:
             eqs.append(f"{f['ident']}@ =~= st.s{i}")
         else:
             eqs.append(f"{f['ident']} == st.s{i}")
-            safe.append(f"({f['ident']}.0 && {f['ident']}.1 is None ==> __errors.errs().len() > 0)")
+
     locs = ", ".join(f"{f['ident']}: " + (f"Vec<T{i}>" if f["multiple"] else f"(bool, Option<T{i}>)") for i, f in enumerate(F))
     call = ", ".join(f["ident"] for f in F)
-    inv = " && ".join(eqs + (["__flatten@ =~= st.flat"] if flat is not None else []) + ["__errors.armed()", "__errors.errs() =~= st.errs"] + safe)
+    link = eqs + (["__flatten@ =~= st.flat"] if flat is not None else []) + ["__errors.errs() =~= st.errs"]
+    if mode == "success":
+        # C01 view: only mistake-free prefixes are tracked; what happens after a mistake is C02's business
+        inv = " && ".join(["__errors.armed()"] + safe + ["(st.errs.len() == 0 ==> " + " && ".join(link) + ")"])
+    else:
+        inv = " && ".join(link + ["__errors.armed()"] + safe)
     flat_p = ", __flatten: Vec<NestedMeta>" if flat is not None else ""
     flat_a = ", __flatten" if flat is not None else ""
-    w(f"pub open spec fn inv_{n}<{gen_bounds}>(st: St{n}<{tps}>, {locs}{flat_p}, __errors: Accumulator) -> bool {{ {inv} }}")
+    w(f"pub open spec fn inv_{n}<{gen_bounds}>(st: St{n}<{tps}>, {locs + ', ' if locs else ''}{flat_p.lstrip(', ') + ', ' if flat_p else ''}__errors: Accumulator) -> bool {{ {inv} }}")
 
     # the real emitted function under contract
     w(f"impl<{impl_gen}> {n}<{tps}> {{")
     w(f"    //@fn @gen:{gen_id}.rs :: impl crate::darling::FromMeta for {n}<{tps}> :: fn from_list")
     w(f"    pub fn from_list(__items: &[crate::darling::export::NestedMeta]) -> (r: crate::darling::Result<Self>)")
-    w(f"        ensures r == fin_{n}::<{tps}>(run_{n}::<{tps}>(__items@)),")
+    if mode == "success":
+        w(f"        ensures fin_{n}::<{tps}>(run_{n}::<{tps}>(__items@)) is Ok ==> r == fin_{n}::<{tps}>(run_{n}::<{tps}>(__items@)),")
+    elif mode == "err":
+        okc = "true" if d["cpost"] == "and_then" else "r is Ok"
+        w(f"        ensures match fin0_{n}::<{tps}>(run_{n}::<{tps}>(__items@)) {{ Err(e) => r == Err::<Self, Error>(e), Ok(_) => {okc} }},")
+    else:
+        w(f"        ensures r == fin_{n}::<{tps}>(run_{n}::<{tps}>(__items@)),")
     w("    //@body")
     w("    //@ replace R6n: for __item in __items ==> for __item in __it: __items")
-    w(f"    //@ loop 0 spec: invariant inv_{n}::<{tps}>(run_{n}::<{tps}>(__items@.take(__it.index@ as int)), {call}{flat_a}, __errors),")
+    w(f"    //@ loop 0 spec: invariant inv_{n}::<{tps}>(run_{n}::<{tps}>(__items@.take(__it.index@ as int)), {call + ', ' if call else ''}{flat_a.lstrip(', ') + ', ' if flat_a else ''}__errors),")
     w("    //@ loop 0 head: proof { assert(__items@.take(__it.index@ + 1).drop_last() == __items@.take(__it.index@ as int)); }")
     w("    //@ loop 0 after: proof { assert(__items@.take(__items@.len() as int) == __items@); }")
-    w("    //@ match_str 0")
+    if addressable:
+        w("    //@ match_str 0")
     if flat is None and not d["allow_unknown"] and names:
         w(f"    //@ replace R16: unknown_field_with_alts(__other, &[$$]) ==> unknown_field_with_alts(__other, {{ let __alts: &[&str] = &[$1]; proof {{ assert(strs(__alts@) =~= {names_seq}); }} __alts }})")
     if flat is not None:
@@ -424,7 +439,10 @@ def struct_template(d, gen_id):
         w(f"    //@ replace R4: .map(map_{n}) ==> .map(|__x: {n}<{tps}>| -> (r: {n}<{tps}>) ensures r == map_{n}_spec(__x) {{ map_{n}(__x) }})")
     w("    //@end")
     w("}")
-    return "\n".join(o)
+    text = "\n".join(o)
+    if N == 0:
+        text = text.replace("::<>", "").replace("<>", "")
+    return text
 
 
 HEADER = """// L3 unit {unit}: code emitted by the working tree's derive for the receiver(s) below, verified for all inputs
@@ -445,9 +463,12 @@ verus! {{
 FOOTER = "\n} // verus!\nfn main() {}\n"
 
 
-def make_unit(unit, d):
+def make_unit(unit, d, mode="full", unit_span=False):
     from . import driver as D
-    text = HEADER.format(unit=unit) + struct_template(d, unit) + FOOTER
+    hdr = HEADER.format(unit=unit)
+    if unit_span:
+        hdr = hdr.replace("//@include prelude/base.vrs", "//@include prelude/base_unitspan.vrs")
+    text = hdr + struct_template(d, unit, mode) + FOOTER
     return D.expand_includes(text)
 
 
@@ -456,10 +477,24 @@ def quick_structs():
     f = field
     return [
         struct_desc("R0", [f("first_one"), f("b", default="trait"), f("c", multiple=True, rename="cs"), f("d", skip=True)], rename_all="camelCase"),
+        struct_desc("R1", [f("a", with_=True, post="map"), f("b", default="path", post="and_then"), f("c", flatten=True), f("d", skip=True, default="path")],
+                    cdefault="trait", cpost="and_then", allow_unknown=True),
+        struct_desc("R2", [f("x"), f("y")], allow_unknown=True),
+        struct_desc("R3", [f("lorem_ipsum", flatten=True), f("dolor_sit")], rename_all="SCREAMING_SNAKE_CASE"),
+        struct_desc("R4", [f("a", skip=True), f("b", default="trait")], cdefault="path"),
+        struct_desc("R5", [f("items", multiple=True, default="path"), f("more", multiple=True, default="trait"), f("z")]),
+        struct_desc("R6", [f("a", default="trait", post="and_then"), f("b", with_=True)], cpost="map"),
+        struct_desc("R7", [f("only_flat", flatten=True)]),
+        struct_desc("R8", [f("s", skip=True)]),
+        struct_desc("R9", [f("my_field", rename="other"), f("your_field")], rename_all="kebab-case"),
+        struct_desc("R10", [f("a"), f("b"), f("c"), f("d"), f("e")], rename_all="PascalCase"),
+        struct_desc("R11", [f("a", with_=True, post="and_then", multiple=True), f("b", with_=True, default="path")], cdefault="trait"),
+        struct_desc("R12", [], allow_unknown=False),
+        struct_desc("R13", [f("a", multiple=True), f("rest", flatten=True)], cpost="map"),
     ]
 
 
-def run_descs(descs, tier="quick", canaries=("head",)):
+def run_descs(descs, tier="quick", canaries=("head",), mode="full", unit_span=False):
     """Expand, compose and verify each descriptor as its own unit. -> list[UnitResult]"""
     from . import driver as D
     import concurrent.futures as cf
@@ -481,8 +516,96 @@ def run_descs(descs, tier="quick", canaries=("head",)):
             results.append(u)
             continue
         meta["prepass"] = e["log"]
-        jobs.append((uid, make_unit(uid, d), meta))
+        meta["mode"] = mode + ("+unit-span" if unit_span else "")
+        jobs.append((uid, make_unit(uid, d, mode, unit_span), meta))
     with cf.ThreadPoolExecutor(max_workers=int(os.environ.get("VERIF_JOBS", "14"))) as pool:
         futs = [pool.submit(D.run_unit, n, t, tier, canaries, None, m) for n, t, m in jobs]
         results += [x.result() for x in futs]
     return results
+
+
+def random_struct(rng, name):
+    nf = rng.randint(1, 5)
+    fields = []
+    have_flat = False
+    idents = ["alpha", "beta_two", "gamma", "delta_four_x", "eps"]
+    for i in range(nf):
+        kind = rng.choice(["plain", "plain", "default_t", "default_p", "skip", "multiple", "flatten", "with", "post"])
+        f = field(idents[i])
+        if kind == "flatten" and not have_flat:
+            f["flatten"] = True
+            have_flat = True
+        elif kind == "skip":
+            f["skip"] = True
+            if rng.random() < 0.5:
+                f["default"] = rng.choice(["trait", "path"])
+        else:
+            if kind == "default_t":
+                f["default"] = "trait"
+            if kind == "default_p":
+                f["default"] = "path"
+            if kind == "multiple" or rng.random() < 0.15:
+                f["multiple"] = True
+            if kind == "with" or rng.random() < 0.2:
+                f["with"] = True
+            if kind == "post" or rng.random() < 0.2:
+                f["post"] = rng.choice(["map", "and_then"])
+            if rng.random() < 0.25:
+                f["rename"] = rng.choice(["renamed", "x", "Other_Name"]) + str(i)
+            if f["multiple"] and rng.random() < 0.3:
+                f["default"] = rng.choice(["trait", "path"])
+        fields.append(f)
+    return struct_desc(name, fields, rename_all=rng.choice(RULES), cdefault=rng.choice([None, None, "trait", "path"]),
+                       cpost=rng.choice([None, None, "map", "and_then"]), allow_unknown=rng.random() < 0.3)
+
+
+def pair_structs():
+    """Every ordered pair of field-option kinds on a two-field receiver (C01 why_tests_cant: untested pairs)."""
+    kinds = {
+        "plain": {}, "rename": {"rename": "nm"}, "default_t": {"default": "trait"}, "default_p": {"default": "path"},
+        "skip": {"skip": True}, "skip_dp": {"skip": True, "default": "path"}, "multiple": {"multiple": True},
+        "multiple_d": {"multiple": True, "default": "trait"}, "flatten": {"flatten": True}, "with": {"with": True},
+        "map": {"post": "map"}, "and_then": {"post": "and_then"}, "with_map": {"with": True, "post": "map"},
+    }
+    out = []
+    k = 0
+    for a, ka in kinds.items():
+        for b, kb in kinds.items():
+            if ka.get("flatten") and kb.get("flatten"):
+                continue
+            fa = field("first_f"); fa.update(ka)
+            fb = field("second_f"); fb.update(kb)
+            if fa["rename"]:
+                fa["rename"] = "nm_a"
+            if fb["rename"]:
+                fb["rename"] = "nm_b"
+            out.append(struct_desc(f"P{k}", [fa, fb], rename_all=RULES[k % len(RULES)], cdefault=[None, "trait", "path"][k % 3],
+                                   cpost=[None, "map", "and_then", None][k % 4], allow_unknown=(k % 5 == 0)))
+            k += 1
+    return out
+
+
+CORPORA = {
+    "structs": lambda tier, seed: quick_structs() + ([] if tier == "quick" else pair_structs() + [random_struct(random.Random(seed * 1000 + i), f"Z{i}") for i in range(40)]),
+}
+
+
+def units_for(corpus, tier, seed, mode="full", unit_span=False, prefix="l3"):
+    """-> [(unit name, template | None, meta)] ready for driver.run_unit (template None = derive did not emit code)."""
+    ensure_expander()
+    descs = CORPORA[corpus](tier, seed)
+    tag = {"full": "f", "success": "s", "err": "e"}[mode] + ("u" if unit_span else "")
+    reqs = [{"id": f"{prefix}{tag}_{d['name']}", "trait": d["trait"], "decl": declaration(d)} for d in descs]
+    ex = expand_all(reqs)
+    out = []
+    for d, r in zip(descs, reqs):
+        uid = r["id"]
+        e = ex[uid]
+        meta = {"descriptor": d, "declaration": r["decl"], "mode": mode + ("+unit-span" if unit_span else "")}
+        if not e.get("ok"):
+            meta["prefail"] = "expander: " + (e.get("error") or ("derive panicked: " + e.get("panic", "")))
+            out.append((uid, None, meta))
+            continue
+        meta["prepass"] = e["log"]
+        out.append((uid, make_unit(uid, d, mode, unit_span), meta))
+    return out
